@@ -643,6 +643,18 @@ def clearAndInstallOps (c : FastOps) (l : List (Nat × Op)) : FastOps :=
     (c.clearForInstall opslen, none, List.replicate nvars none, List.replicate nvars none)
   fixEndTails r.1 r.2.1 r.2.2.1 r.2.2.2
 
+/-- the check `assert!(last_p.map(|last_p| p > last_p).unwrap_or(true))` made for every element of
+the list against its predecessor: positions strictly increasing (decidable) -/
+def strictIncr : List Nat → Bool
+  | [] => true
+  | [_] => true
+  | a :: b :: t => decide (a < b) && strictIncr (b :: t)
+
+/-- `FastOps::new_from_ops` with the `assert!` of `clear_and_install_ops`: `none` = panic (the list is
+rejected) exactly when the positions are not strictly increasing -/
+def newFromOpsChecked (nvars : Nat) (l : List (Nat × Op)) : Option FastOps :=
+  if strictIncr (l.map (·.1)) then some ((new nvars none).clearAndInstallOps l) else none
+
 /-- `FastOps::new_from_ops(nvars, ps_and_ops)` -/
 def newFromOps (nvars : Nat) (l : List (Nat × Op)) : FastOps :=
   (new nvars none).clearAndInstallOps l
